@@ -6,6 +6,11 @@ EXTENDS TxBuild, TLC, Json
 
 CONSTANTS Depth, MaxObjs
 
+\* the symbolic lemma module (Apalache: Add = addition mod 2^64 for all operands) is about TxBuild!Add64
+A64 == INSTANCE Add64Ind WITH a <- <<>>, b <- <<>>
+ASSUME \A x \in {Zeros(8), Rep(255, 8), <<255, 0, 1, 2, 3, 4, 5, 128>>, <<1, 0, 0, 0, 0, 0, 0, 0>>},
+          y \in {Zeros(8), Rep(255, 8), <<1, 255, 254, 0, 9, 8, 7, 127>>, <<0, 0, 0, 0, 0, 0, 0, 128>>} : Add64(x, y) = A64!Add(x, y)
+
 HexDigit(d) == IF d < 10 THEN 48 + d ELSE 87 + d
 HexOf(bs) == [i \in 1..2 * Len(bs) |-> HexDigit(IF i % 2 = 1 THEN bs[(i + 1) \div 2] \div 16 ELSE bs[i \div 2] % 16)]
 
